@@ -1,0 +1,271 @@
+//go:build verif
+
+package secs1
+
+// verif_hooks_secs1.go — add-only test hooks for the external verification harness (build tag
+// `verif`). Nothing here is compiled into a normal build. The hooks expose the unexported SECS-I
+// block codec, the inbound assembler with an injected clock, and a lineIO over a caller-supplied
+// net.Conn, so the harness can run the real code in-process next to the Lean model.
+
+import (
+	"context"
+	"errors"
+	"net"
+	"time"
+
+	"github.com/arloliu/go-secs/v2/hsms"
+	"github.com/arloliu/go-secs/v2/internal/wire"
+)
+
+// VerifHeader mirrors messageHeader.
+type VerifHeader struct {
+	DeviceID    uint16
+	RBit        bool
+	Stream      uint8
+	Function    uint8
+	WaitBit     bool
+	SystemBytes [4]byte
+}
+
+func (h VerifHeader) mh() messageHeader {
+	return messageHeader{deviceID: h.DeviceID, rBit: h.RBit, stream: h.Stream, function: h.Function, waitBit: h.WaitBit, systemBytes: h.SystemBytes}
+}
+
+// VerifBlock mirrors block (header value + body bytes).
+type VerifBlock struct {
+	Header [10]byte
+	Body   []byte
+}
+
+func (b VerifBlock) blk() block {
+	var c wire.Chunk
+	if len(b.Body) > 0 {
+		c = wire.ChunkOf(b.Body)
+	}
+
+	return block{header: b.Header, body: c}
+}
+
+func verifFromBlock(b block) VerifBlock {
+	return VerifBlock{Header: b.header, Body: b.body.AppendTo(nil)}
+}
+
+// VerifConsts returns the package's block/line constants.
+func VerifConsts() map[string]int {
+	return map[string]int{
+		"maxBlockBodySize": maxBlockBodySize, "blockHeaderSize": blockHeaderSize, "checksumSize": checksumSize,
+		"minBlockLength": minBlockLength, "maxBlockLength": maxBlockLength, "maxBlockNumber": maxBlockNumber,
+		"enq": int(enq), "eot": int(eot), "ack": int(ack), "nak": int(nak),
+	}
+}
+
+// VerifBuildHeader calls buildHeader.
+func VerifBuildHeader(h VerifHeader, blockNumber uint16, last bool) [10]byte {
+	return buildHeader(h.mh(), blockNumber, last)
+}
+
+// VerifSplitBody calls splitBody on an adopted body and collects the yielded blocks.
+func VerifSplitBody(body []byte, h VerifHeader) ([]VerifBlock, error) {
+	seq, err := splitBody(wire.AdoptBody(body), h.mh())
+	if err != nil {
+		return nil, err
+	}
+	var out []VerifBlock
+	for b := range seq {
+		out = append(out, verifFromBlock(b))
+	}
+
+	return out, nil
+}
+
+// VerifSplitCount runs splitBody and only counts blocks / sums body lengths (for very large bodies).
+func VerifSplitCount(body []byte, h VerifHeader) (n int, bodyBytes int, err error) {
+	seq, err := splitBody(wire.AdoptBody(body), h.mh())
+	if err != nil {
+		return 0, 0, err
+	}
+	for b := range seq {
+		n++
+		bodyBytes += b.body.Len()
+	}
+
+	return n, bodyBytes, nil
+}
+
+// VerifAppendTo calls block.appendTo.
+func VerifAppendTo(dst []byte, b VerifBlock) []byte { return b.blk().appendTo(dst) }
+
+// VerifParseBlock calls parseBlock.
+func VerifParseBlock(lengthByte byte, rest []byte) (VerifBlock, error) {
+	b, err := parseBlock(lengthByte, rest)
+	if err != nil {
+		return VerifBlock{}, err
+	}
+
+	return verifFromBlock(b), nil
+}
+
+// VerifAssembleFrame calls assembleFrame.
+func VerifAssembleFrame(blocks []VerifBlock) ([]byte, error) {
+	bs := make([]block, len(blocks))
+	for i, b := range blocks {
+		bs[i] = b.blk()
+	}
+
+	return assembleFrame(bs)
+}
+
+// VerifErrClass maps the package's sentinel errors to a small stable enum.
+func VerifErrClass(err error) string {
+	switch {
+	case err == nil:
+		return "ok"
+	case errors.Is(err, ErrSendFailed):
+		return "sendfailed"
+	case errors.Is(err, ErrInvalidLength):
+		return "length"
+	case errors.Is(err, ErrChecksumMismatch):
+		return "checksum"
+	case errors.Is(err, ErrT1Timeout):
+		return "t1"
+	case errors.Is(err, ErrT2Timeout):
+		return "t2"
+	case errors.Is(err, ErrInvalidHeader):
+		return "header"
+	case errors.Is(err, ErrMessageTooLarge):
+		return "toolarge"
+	case errors.Is(err, ErrEmptyBlocks):
+		return "empty"
+	case errors.Is(err, ErrBlockNumberMismatch):
+		return "number"
+	case errors.Is(err, ErrEBitPlacement):
+		return "ebit"
+	case errors.Is(err, ErrHeaderMismatch):
+		return "hdr"
+	case errors.Is(err, ErrDeviceIDMismatch):
+		return "dev"
+	case errors.Is(err, ErrInvalidFirstBlock):
+		return "first"
+	case errors.Is(err, context.Canceled), errors.Is(err, context.DeadlineExceeded):
+		return "ctx"
+	default:
+		return "other"
+	}
+}
+
+// VerifAssembler is a real assembler with an injected clock, T4, role and device id, and a
+// recorder for deliveries and notify() violations.
+type VerifAssembler struct {
+	a          *assembler
+	now        time.Time
+	t4         time.Duration
+	Delivered  [][]byte
+	Violations []string
+	DeliverErr error // returned by the delivery sink when non-nil
+	m          *ConnectionMetrics
+}
+
+// NewVerifAssembler builds the assembler through newAssembler (the production constructor).
+func NewVerifAssembler(isEquip bool, deviceID uint16, t4 time.Duration) (*VerifAssembler, error) {
+	opts := []Option{WithDeviceID(deviceID)}
+	if isEquip {
+		opts = append(opts, WithEquipment())
+	} else {
+		opts = append(opts, WithHost())
+	}
+	cfg, err := NewConfig("127.0.0.1", 5000, opts...)
+	if err != nil {
+		return nil, err
+	}
+	v := &VerifAssembler{t4: t4, m: &ConnectionMetrics{}, now: time.Unix(1_000_000, 0)}
+	v.a = newAssembler(cfg, func(f []byte) error {
+		v.Delivered = append(v.Delivered, append([]byte(nil), f...))
+
+		return v.DeliverErr
+	}, func() hsms.TimerConfig { return hsms.TimerConfig{T4: v.t4} }, v.m, func(err error, _ [10]byte) {
+		v.Violations = append(v.Violations, VerifErrClass(err))
+	})
+	v.a.now = func() time.Time { return v.now }
+
+	return v, nil
+}
+
+// SetNow sets the injected clock to base + d.
+func (v *VerifAssembler) SetNow(d time.Duration) { v.now = time.Unix(1_000_000, 0).Add(d) }
+
+// SetT4 changes the live T4.
+func (v *VerifAssembler) SetT4(d time.Duration) { v.t4 = d }
+
+// Accept feeds one block to assembler.accept.
+func (v *VerifAssembler) Accept(b VerifBlock) error { return v.a.accept(b.blk()) }
+
+// Open reports whether a partial message is in progress, and how many blocks it holds.
+func (v *VerifAssembler) Open() (bool, int) { return v.a.open, len(v.a.blocks) }
+
+// Metrics returns the block metrics the assembler and line write to.
+func (v *VerifAssembler) Metrics() *ConnectionMetrics { return v.m }
+
+// VerifLine is a real lineIO over a caller-supplied net.Conn with configurable T1/T2 and role.
+type VerifLine struct {
+	l *lineIO
+	m *ConnectionMetrics
+}
+
+// NewVerifLine builds the lineIO through newLineIO (the production constructor).
+func NewVerifLine(conn net.Conn, isEquip bool, t1, t2 time.Duration) (*VerifLine, error) {
+	opts := []Option{WithT1(t1), WithT2(t2)}
+	if isEquip {
+		opts = append(opts, WithEquipment())
+	} else {
+		opts = append(opts, WithHost())
+	}
+	cfg, err := NewConfig("127.0.0.1", 5000, opts...)
+	if err != nil {
+		return nil, err
+	}
+	m := &ConnectionMetrics{}
+
+	return &VerifLine{l: newLineIO(conn, cfg, cfg.Timers, m), m: m}, nil
+}
+
+// SendBlock calls lineIO.sendBlock.
+func (v *VerifLine) SendBlock(ctx context.Context, b VerifBlock, retryLimit int, deliver func(VerifBlock) error) error {
+	return v.l.sendBlock(ctx, b.blk(), retryLimit, func(r block) error {
+		if deliver == nil {
+			return nil
+		}
+
+		return deliver(verifFromBlock(r))
+	})
+}
+
+// SendBlockOnce calls lineIO.sendBlockOnce; the int is the sendResult enum value.
+func (v *VerifLine) SendBlockOnce(ctx context.Context, b VerifBlock) (int, error) {
+	r, err := v.l.sendBlockOnce(ctx, b.blk())
+
+	return int(r), err
+}
+
+// ReceiveBlock calls lineIO.receiveBlock (the caller has already answered ENQ with EOT).
+func (v *VerifLine) ReceiveBlock(ctx context.Context) (VerifBlock, error) {
+	b, err := v.l.receiveBlock(ctx)
+	if err != nil {
+		return VerifBlock{}, err
+	}
+
+	return verifFromBlock(b), nil
+}
+
+// PollByte reads one byte with the given timeout through the line's single reader (the idle poll of
+// lineEngine); ok=false on timeout or error.
+func (v *VerifLine) PollByte(timeout time.Duration) (b byte, ok bool) {
+	c, err := v.l.readByte(timeout)
+
+	return c, err == nil
+}
+
+// WriteByte writes one handshake character through the line.
+func (v *VerifLine) WriteByte(b byte) error { return v.l.writeByte(b) }
+
+// Metrics returns the line's block metrics.
+func (v *VerifLine) Metrics() *ConnectionMetrics { return v.m }
